@@ -2,6 +2,7 @@ package main
 
 import (
 	"fmt"
+	"sort"
 
 	. "verif/internal/proto"
 	zr "verif/internal/znref"
@@ -178,9 +179,13 @@ func c06Fixed() ([]*zr.Program, []map[string]Val, []string) {
 	// containers that open a block
 	type blockMaker func(body []zr.Stmt) []zr.Stmt
 	blocks := map[string]blockMaker{
-		"if":    func(b []zr.Stmt) []zr.Stmt { return []zr.Stmt{zr.If{Cond: zr.N("真"), Then: b}} },
-		"else":  func(b []zr.Stmt) []zr.Stmt { return []zr.Stmt{zr.If{Cond: zr.N("假"), Then: []zr.Stmt{show("x")}, HasElse: true, Else: b}} },
-		"elif":  func(b []zr.Stmt) []zr.Stmt { return []zr.Stmt{zr.If{Cond: zr.N("假"), Then: []zr.Stmt{show("x")}, Elifs: []zr.Elif{{Cond: zr.N("真"), Body: b}}}} },
+		"if": func(b []zr.Stmt) []zr.Stmt { return []zr.Stmt{zr.If{Cond: zr.N("真"), Then: b}} },
+		"else": func(b []zr.Stmt) []zr.Stmt {
+			return []zr.Stmt{zr.If{Cond: zr.N("假"), Then: []zr.Stmt{show("x")}, HasElse: true, Else: b}}
+		},
+		"elif": func(b []zr.Stmt) []zr.Stmt {
+			return []zr.Stmt{zr.If{Cond: zr.N("假"), Then: []zr.Stmt{show("x")}, Elifs: []zr.Elif{{Cond: zr.N("真"), Body: b}}}}
+		},
 		"while": func(b []zr.Stmt) []zr.Stmt {
 			return []zr.Stmt{zr.LetS("计", lit(0)), zr.While{Cond: zr.Bin{Op: "<", L: zr.N("计"), R: lit(2)}, Body: append([]zr.Stmt{zr.Set(zr.N("计"), zr.Bin{Op: "+", L: zr.N("计"), R: lit(1)})}, b...)}}
 		},
@@ -253,6 +258,66 @@ func c06Fixed() ([]*zr.Program, []map[string]Val, []string) {
 	add("after-exception/caller-state", nil, nil, &zr.FuncDef{Name: "方法", Params: []string{"参"}, Body: []zr.Stmt{zr.LetS("局", lit(1)), zr.Throw{Class: "异常", Args: []zr.Expr{zr.S("e")}}},
 		Catches: []zr.Catch{{Class: "异常", Body: []zr.Stmt{show("handled"), zr.Return{E: lit(0)}}}}},
 		zr.LetS("外", lit(7)), zr.If{Cond: zr.N("真"), Then: []zr.Stmt{zr.LetS("块内", lit(8)), call("果"), show("caller", "外", "块内", "果")}}, show("after", "外"), show("gone", "块内"))
+	// the same for every way a body can be left through its handler: an explicit 抛出, runtime
+	// faults, a call with the wrong number of arguments (method, object method, constructor),
+	// a rejected declaration / assignment - directly, inside an inner block, or one call deeper
+	helper := &zr.FuncDef{Name: "助", Params: []string{"子"}, Body: []zr.Stmt{zr.LetS("助局", lit(3)), zr.Return{E: zr.N("子")}}}
+	hcls := zr.ClassDef{Name: "助型", Props: []zr.PropDef{{Name: "值", Val: lit(1)}}, Methods: []*zr.FuncDef{{Name: "取", Params: []string{"子"}, Body: []zr.Stmt{zr.Return{E: zr.N("子")}}}}}
+	hctor := &zr.FuncDef{Name: "助型", Ctor: true, Params: []string{"初"}, Body: []zr.Stmt{zr.Set(zr.ThisProp{Prop: "值"}, zr.N("初"))}}
+	raises := map[string]zr.Stmt{
+		"throw":        zr.Throw{Class: "异常", Args: []zr.Expr{zr.S("e")}},
+		"div0":         zr.LetS("坏", zr.Bin{Op: "/", L: lit(1), R: lit(0)}),
+		"undefined":    zr.Show(zr.N("未名")),
+		"index":        zr.Show(zr.Index{Recv: zr.ListLit{Items: []zr.Expr{lit(1)}}, Idx: lit(3)}),
+		"arity-more":   zr.ExprStmt{E: zr.CallE("助", lit(1), lit(2), lit(3))},
+		"arity-less":   zr.ExprStmt{E: zr.CallE("助")},
+		"arity-method": zr.ExprStmt{E: zr.MCall{Recv: zr.New{Class: "助型", Args: []zr.Expr{lit(1)}}, Chain: []zr.CallPart{{Fn: "取", Args: []zr.Expr{lit(1), lit(2)}}}}},
+		"arity-ctor":   zr.LetS("物", zr.New{Class: "助型", Args: []zr.Expr{lit(1), lit(2)}}),
+		"arity-ctor0":  zr.LetS("物", zr.New{Class: "助型"}),
+		"const-assign": zr.Set(zr.N("参"), lit(9)),
+		"redeclare":    zr.LetS("局", lit(5)),
+		"type":         zr.Show(zr.Bin{Op: "*", L: zr.S("a"), R: lit(2)}),
+	}
+	rnames := []string{}
+	for k := range raises {
+		rnames = append(rnames, k)
+	}
+	sort.Strings(rnames)
+	for _, rk := range rnames {
+		rs := raises[rk]
+		for _, where := range []string{"direct", "in-block", "in-loop", "deeper"} {
+			var fbody []zr.Stmt
+			switch where {
+			case "direct":
+				fbody = []zr.Stmt{zr.LetS("局", lit(1)), rs, show("not-reached")}
+			case "in-block":
+				fbody = []zr.Stmt{zr.LetS("局", lit(1)), zr.If{Cond: zr.N("真"), Then: []zr.Stmt{zr.LetS("深", lit(2)), zr.If{Cond: zr.N("真"), Then: []zr.Stmt{zr.LetS("更深", lit(3)), rs}}}}, show("not-reached")}
+			case "in-loop":
+				fbody = []zr.Stmt{zr.LetS("局", lit(1)), zr.Iter{Names: []string{"轮"}, Over: zr.ListLit{Items: []zr.Expr{lit(1), lit(2)}}, Body: []zr.Stmt{zr.LetS("深", lit(2)), rs}}, show("not-reached")}
+			case "deeper":
+				if rk == "const-assign" || rk == "redeclare" {
+					continue
+				}
+				fbody = []zr.Stmt{zr.LetS("局", lit(1)), zr.ExprStmt{E: zr.CallE("中")}, show("not-reached")}
+			}
+			mid := &zr.FuncDef{Name: "中", Body: []zr.Stmt{zr.LetS("中局", lit(4)), rs, show("not-reached-mid")}}
+			f := &zr.FuncDef{Name: "方法", Params: []string{"参"}, Body: fbody, Catches: []zr.Catch{{Class: "异常", Body: []zr.Stmt{show("handled", "参"), zr.Return{E: lit(0)}}}}}
+			pre := []zr.Stmt{hcls, hctor, helper, mid, f}
+			tag := rk + "/" + where
+			for _, gone := range []string{"局", "参", "深", "中局", "子", "助局", "初"} {
+				add("after-exception2/"+tag+"/gone-"+gone, nil, nil, append(append([]zr.Stmt{}, pre...), call(""), show("after", gone))...)
+			}
+			add("after-exception2/"+tag+"/caller-state", nil, nil, append(append([]zr.Stmt{}, pre...),
+				zr.LetS("外", lit(7)), zr.If{Cond: zr.N("真"), Then: []zr.Stmt{zr.LetS("块内", lit(8)), call("果"), show("caller", "外", "块内", "果"), zr.LetS("新", lit(9)), show("new", "新")}}, show("after", "外"), show("gone", "块内"))...)
+			add("after-exception2/"+tag+"/caller-redeclare", nil, nil, append(append([]zr.Stmt{}, pre...),
+				zr.LetS("外", lit(7)), zr.If{Cond: zr.N("真"), Then: []zr.Stmt{zr.LetS("块内", lit(8)), call(""), zr.LetS("块内", lit(9)), show("not-reached", "块内")}}, show("not-reached-2"))...)
+			add("after-exception2/"+tag+"/caller-redeclare-top", nil, nil, append(append([]zr.Stmt{}, pre...),
+				zr.LetS("外", lit(7)), call(""), zr.LetS("外", lit(9)), show("not-reached", "外"))...)
+			add("after-exception2/"+tag+"/block-end-after", nil, nil, append(append([]zr.Stmt{}, pre...),
+				zr.If{Cond: zr.N("真"), Then: []zr.Stmt{call(""), zr.LetS("块后", lit(8)), show("in", "块后")}}, show("gone", "块后"))...)
+			// in the main program: the handler of the program itself
+		}
+	}
 	// predefined names
 	for _, n := range zr.Predefined {
 		add("predefined/assign/"+n, nil, nil, zr.Set(zr.N(n), lit(1)), show("not-reached"))
@@ -271,7 +336,7 @@ func c06Fixed() ([]*zr.Program, []map[string]Val, []string) {
 }
 
 func checkC06(c *Ctx) {
-	c.rule = "(1) symbol-table histories: all sequences of begin/end-scope, declare, declare-const, assign, lookup over 3 names up to length 4 (quick) / 5 (thorough) plus random histories up to length 200, against a stack-of-maps model; (2) fixed probe families: for every block kind (如果/否则/再如/每当/遍历) use after block end, use before declaration, shadowing and its end, assignment to outer, same-block redeclaration (43), constants (44); for method locals/parameters/得到 names/method and type names/输入: visibility after return (normal and through a handled exception) and reassignment; the 7 predefined names x {assign, declare, declare const, declare in block, as parameter, as loop variable, as 得到 name}; old value intact after a rejected assignment (seen through the handler); (3) random programs with inner-block shadowing; quiescent invariant after each successful run (scope depth 0, call stack empty). distinct_nontrivial = distinct histories / (family, outcome kind)"
+	c.rule = "(1) symbol-table histories: all sequences of begin/end-scope, declare, declare-const, assign, lookup over 3 names up to length 4 (quick) / 5 (thorough) plus random histories up to length 200, against a stack-of-maps model; (2) fixed probe families: for every block kind (如果/否则/再如/每当/遍历) use after block end, use before declaration, shadowing and its end, assignment to outer, same-block redeclaration (43), constants (44); for method locals/parameters/得到 names/method and type names/输入: visibility after return (normal and through a handled exception - 12 ways of raising it x {directly, inside nested blocks, inside a loop, one call deeper}: callee names gone, caller's block still rejects redeclaration, names of blocks ending afterwards gone) and reassignment; the 7 predefined names x {assign, declare, declare const, declare in block, as parameter, as loop variable, as 得到 name}; old value intact after a rejected assignment (seen through the handler); (3) random programs with inner-block shadowing; quiescent invariant after each successful run (scope depth 0, call stack empty). distinct_nontrivial = distinct histories / (family, outcome kind)"
 	c.assumptions = []string{"declaring a local with the name of a parameter / loop variable / definition of the same body is unspecified and not generated", "imports are probed by C15"}
 	checkScopeAPI(c)
 	progs, ins, shapes := c06Fixed()
